@@ -29,6 +29,11 @@ fn v_expected_token(c: &Connection) -> [u8; 4] {
     }
 }
 
+/// the byte budget can_fit_chunk admits for the chunk area
+fn v_fit_limit() -> usize {
+    MAX_PAYLOAD
+}
+
 fn v_token_ok(t: [u8; 4]) -> bool {
     t != [0xff; 4] && t != [0; 4]
 }
